@@ -48,9 +48,10 @@ func zzPeerBytes(outcome int, marker byte) []byte {
 }
 
 type zzDialer struct {
-	conns    []*zz.NetConn
-	script   func() (outcome int, marker byte) // outcome of the exchange in progress
-	dials    int
+	conns  []*zz.NetConn
+	script func() (outcome int, marker byte) // outcome of the exchange in progress
+	dials  int
+	next   []byte // when script returns outcome -1: the bytes the new connection's peer sends
 }
 
 var zzErrDial = errors.New("zz: dial failed")
@@ -61,7 +62,12 @@ func (d *zzDialer) DialConnection(n, address string, timeout time.Duration, tlsC
 	if outcome == zzDialError {
 		return nil, zzErrDial
 	}
-	nc := zz.NewNetConn(zzPeerBytes(outcome, marker))
+	var nc *zz.NetConn
+	if outcome == -1 {
+		nc = zz.NewNetConn(append([]byte(nil), d.next...))
+	} else {
+		nc = zz.NewNetConn(zzPeerBytes(outcome, marker))
+	}
 	if outcome == zzWriteError {
 		nc.WriteErrAt = nc.Writes
 	}
@@ -252,5 +258,151 @@ func ZZ_C10_H2() {
 		b, _ := resp3.BodyE()
 		zz.Assert("third-response-is-its-own", len(b) == 2 && b[1] == '2')
 	}
+	zz.Assert("pending-gauge-zero", c.PendingRequests() == 0)
+}
+
+// response shapes for the streaming harness: marker byte m
+func zzStreamPeerBytes(shape int, m byte) []byte {
+	switch shape {
+	case 0:
+		return append([]byte("HTTP/1.1 200 OK\r\nContent-Length: 2\r\n\r\nr"), m)
+	case 1:
+		return append(append([]byte("HTTP/1.1 200 OK\r\nX-M: "), m), "\r\nContent-Length: 0\r\n\r\n"...)
+	case 2:
+		return append(append([]byte("HTTP/1.1 204 No Content\r\nX-M: "), m), "\r\n\r\n"...)
+	case 3:
+		return append(append([]byte("HTTP/1.1 200 OK\r\nConnection: close\r\nContent-Length: 2\r\n\r\nr"), m))
+	case 4:
+		return append(append([]byte("HTTP/1.1 200 OK\r\nTransfer-Encoding: chunked\r\n\r\n2\r\nr"), m), "\r\n0\r\n\r\n"...)
+	}
+	return nil
+}
+
+// zzPoolInvariant: connections counted for the host are exactly the open ones; the idle pool
+// holds each connection at most once, every idle connection is open, and idle <= counted <= max.
+func zzPoolInvariant(c *HostClient, d *zzDialer, maxConns int) bool {
+	open := 0
+	for _, nc := range d.conns {
+		if nc.Closed == 0 {
+			open++
+		}
+	}
+	if c.connsCount != open || c.connsCount > maxConns || len(c.conns) > c.connsCount {
+		return false
+	}
+	for i := range c.conns {
+		for j := i + 1; j < len(c.conns); j++ {
+			if c.conns[i] == c.conns[j] {
+				return false
+			}
+		}
+	}
+	return true
+}
+
+// ZZ_C10_H3: response streaming. A sequence of calls whose responses have every framing shape
+// (fixed length, explicitly empty, bodiless status, Connection: close, chunked); the caller
+// reads or does not read the body and closes the stream (possibly twice) before the next call,
+// or leaves it open while a second call waits and times out. After every step the pool invariant
+// holds, every response belongs to its request, and at the end nothing is pending.
+func ZZ_C10_H3() {
+	maxConns := zz.Range("maxConns", 1, 2)
+	d := &zzDialer{}
+	var pending []byte // shape/marker of the exchange a new connection will serve
+	d.script = func() (int, byte) { return zzOK, 0 }
+	c := NewHostClient(&ClientOptions{Dialer: d, MaxConns: maxConns, MaxConnWaitTimeout: time.Second, ResponseBodyStream: true}).(*HostClient)
+	c.Addr = "h:80"
+	_ = pending
+	n := zz.Range("calls", 1, zz.Param("M", 3))
+	invOK, respOK := true, true
+	var open []*protocol.Response // responses whose stream the caller has not closed yet
+	for i := 0; i < n; i++ {
+		shape := zz.Choose("shape", 5)
+		marker := byte('0' + i)
+		reply := zzStreamPeerBytes(shape, marker)
+		// the peer answers on whichever connection the request arrives: feed every open
+		// connection that has no unread input, and script the next dial the same way
+		fed := []*zz.NetConn{}
+		for _, nc := range d.conns {
+			if nc.Closed == 0 && nc.Pos == len(nc.In) {
+				nc.In = append(nc.In, reply...)
+				fed = append(fed, nc)
+			}
+		}
+		ndials := len(d.conns)
+		dialReply := reply
+		d.script = func() (int, byte) { return -1, 0 }
+		d.next = dialReply
+		var req protocol.Request
+		resp := &protocol.Response{}
+		req.SetRequestURI("http://h/" + string([]byte{marker}))
+		err := c.Do(&zzCtx{}, &req, resp)
+		// un-feed the connections that did not carry the request
+		for _, nc := range fed {
+			if nc.Pos == len(nc.In)-len(reply) && nc.Closed == 0 {
+				nc.In = nc.In[:len(nc.In)-len(reply)]
+			}
+		}
+		_ = ndials
+		if err != nil {
+			// only legitimate failure here: no free connection within the wait timeout
+			zz.Cover("no-free-connection", true)
+			if len(open) == 0 {
+				respOK = false
+			}
+		} else {
+			var got byte
+			if shape == 1 || shape == 2 {
+				if v := resp.Header.Peek("X-M"); len(v) == 1 {
+					got = v[0]
+				}
+			} else if zz.Choose("readBody", 2) == 1 || !resp.IsBodyStream() {
+				b, _ := resp.BodyE()
+				if len(b) == 2 {
+					got = b[1]
+				}
+			} else {
+				got = marker // body deliberately left unread
+			}
+			if got != marker {
+				respOK = false
+			}
+			switch zz.Choose("close", 3) {
+			case 0:
+				resp.CloseBodyStream() //nolint:errcheck
+			case 1:
+				resp.CloseBodyStream() //nolint:errcheck
+				resp.CloseBodyStream() //nolint:errcheck
+			case 2:
+				if resp.IsBodyStream() {
+					open = append(open, resp)
+					zz.Cover("stream-left-open", true)
+				}
+			}
+		}
+		if !zzPoolInvariant(c, d, maxConns) {
+			invOK = false
+		}
+	}
+	for _, r := range open {
+		r.CloseBodyStream() //nolint:errcheck
+	}
+	zz.Cover("reached-assert", true)
+	zz.Cover("connection-reused", len(d.conns) < n)
+	zz.Assert("pool-invariant-after-every-call", invOK)
+	zz.Assert("response-belongs-to-the-callers-request", respOK)
+	zz.Assert("pool-invariant-at-the-end", zzPoolInvariant(c, d, maxConns))
+	zz.Assert("all-open-connections-idle-at-the-end", len(c.conns) == c.connsCount)
+	// (WantConnectionCount itself dereferences a nil queue on a client that never waited - an
+	// incidental observation outside C10, see DESIGN.md - so the queue is inspected directly)
+	liveWaiter := false
+	if q := c.connsWait; q != nil {
+		for q.len() > 0 {
+			if q.popFront().waiting() {
+				liveWaiter = true
+			}
+		}
+	}
+	zz.Assert("no-live-waiter", !liveWaiter)
 	zz.Assert("pending-gauge-zero", c.PendingRequests() == 0)
 }
